@@ -353,3 +353,24 @@ func plyHeaderEntryResults(data []byte) string {
 	}
 	return strings.Join(parts, " | ")
 }
+
+// strict prefixes of the header text must be rejected by ReadHeader with an error (theorem ply_header_cut_bytes):
+// a few cut positions per file — inside a line, at line boundaries, inside / right after "end_header" (before its LF)
+func (c *Ctx) plyHeaderCuts(op string, data []byte) {
+	end := bytes.Index(data, []byte("end_header"))
+	if end < 0 {
+		return
+	}
+	hdrLen := end + len("end_header") // the LF (or CR LF) after it is still missing at this length
+	if bytes.HasPrefix(data[hdrLen:], []byte("\r\n")) {
+		hdrLen++ // "…end_header\r" without LF is still a strict prefix
+	}
+	cuts := []int{hdrLen, end, c.Rng.Intn(hdrLen + 1), c.Rng.Intn(hdrLen + 1)}
+	if nl := bytes.LastIndexByte(data[:end], '\n'); nl >= 0 {
+		cuts = append(cuts, nl, nl+1)
+	}
+	for _, k := range cuts {
+		r := plyImplReadHeader(data[:k])
+		c.Emit(op, fmt.Sprintf("%d %s", k, strings.Fields(r)[0]), "true")
+	}
+}
